@@ -41,14 +41,15 @@ def files_strategy(draw):
     return out
 
 
-layout_strategy = st.fixed_dictionaries({
+_one_layout = {
     "direct": st.one_of(st.none(), files_strategy()),
     "compose": st.one_of(st.none(), files_strategy()),
     "legacy": st.lists(st.tuples(st.sampled_from(["1.0", "7.2", "rawhide", "22"]), files_strategy()), max_size=2, unique_by=lambda t: t[0]),
     "trailing_slash": st.booleans(),
     "extra_dirs": st.lists(st.sampled_from(["logs", "work", "compose.old", "metadata.bak"]), max_size=2, unique=True),
     "access_order": st.permutations(["info", "images", "rpms", "modules"]),
-})
+}
+layout_strategy = st.fixed_dictionaries(dict(_one_layout, then=st.one_of(st.none(), st.fixed_dictionaries(_one_layout))))
 
 
 def make_text(kind, content, serial):
@@ -84,7 +85,38 @@ def make_text(kind, content, serial):
     return json.dumps(doc)
 
 
-def layout_case(case):
+def populate(root, layout, serial):
+    """(re)creates the directory from a layout description; returns locations and the content class of every placed file"""
+    if os.path.isdir(root):
+        shutil.rmtree(root)
+    os.mkdir(root)
+    locations = {}        # relative location ("" / "compose" / "1.0") -> {kind: {filename: content}}
+    if layout["direct"] is not None:
+        locations[""] = layout["direct"]
+    if layout["compose"] is not None:
+        locations["compose"] = layout["compose"]
+    for name, files in layout["legacy"]:
+        locations[name] = files
+    placed = {}
+    for loc in sorted(locations):
+        mdir = os.path.join(root, loc, "metadata") if loc else os.path.join(root, "metadata")
+        os.makedirs(mdir)
+        for kind in sorted(locations[loc]):
+            for fname in sorted(locations[loc][kind]):
+                serial += 1
+                text = make_text(kind, locations[loc][kind][fname], serial)
+                with open(os.path.join(mdir, fname), "w") as fo:
+                    fo.write(text)
+                placed[(loc, kind, fname)] = locations[loc][kind][fname]
+    for d in layout["extra_dirs"]:
+        os.makedirs(os.path.join(root, d), exist_ok=True)
+    with open(os.path.join(root, "README"), "w") as fo:
+        fo.write("x")
+    return locations, placed, serial
+
+
+def probe(tmp, root, locations, layout):
+    """opens the directory with a NEW Compose object and compares everything it offers with the layout description"""
     import productmd.compose
     import productmd.composeinfo
     import productmd.images
@@ -92,34 +124,8 @@ def layout_case(case):
     import productmd.modules
     classes = {"info": productmd.composeinfo.ComposeInfo, "images": productmd.images.Images, "rpms": productmd.rpms.Rpms,
                "modules": productmd.modules.Modules}
-    tmp = tempfile.mkdtemp(prefix="c20-")
-    try:
-        root = os.path.join(tmp, "Foo-1.0-20160622.n.0")
-        os.mkdir(root)
-        locations = {}        # relative location ("" / "compose" / "1.0") -> {kind: {filename: content}}
-        if case["direct"] is not None:
-            locations[""] = case["direct"]
-        if case["compose"] is not None:
-            locations["compose"] = case["compose"]
-        for name, files in case["legacy"]:
-            locations[name] = files
-        serial = 0
-        placed = {}
-        for loc in sorted(locations):
-            mdir = os.path.join(root, loc, "metadata") if loc else os.path.join(root, "metadata")
-            os.makedirs(mdir)
-            for kind in sorted(locations[loc]):
-                for fname in sorted(locations[loc][kind]):
-                    serial += 1
-                    text = make_text(kind, locations[loc][kind][fname], serial)
-                    with open(os.path.join(mdir, fname), "w") as fo:
-                        fo.write(text)
-                    placed[(loc, kind, fname)] = locations[loc][kind][fname]
-        for d in case["extra_dirs"]:
-            os.makedirs(os.path.join(root, d), exist_ok=True)
-        with open(os.path.join(root, "README"), "w") as fo:
-            fo.write("x")
-        arg = root + ("/" if case["trailing_slash"] else "")
+    if True:
+        arg = root + ("/" if layout["trailing_slash"] else "")
         compose = must("open", productmd.compose.Compose, arg)
         resolved = os.path.relpath(os.path.normpath(compose.compose_path), root)
         resolved = "" if resolved == "." else resolved
@@ -132,7 +138,7 @@ def layout_case(case):
             check(resolved == "", "resolved-elsewhere", "no metadata anywhere but resolved to %r" % resolved)
         here = locations.get(resolved, {})
         mdir = os.path.join(root, resolved, "metadata") if resolved else os.path.join(root, "metadata")
-        for kind in case["access_order"]:
+        for kind in layout["access_order"]:
             candidates = here.get(kind, {})
             opened = []
             real_open = builtins.open
@@ -194,10 +200,30 @@ def layout_case(case):
                 os.unlink(os.path.join(mdir, fname))
             again = must("re-access", lambda: getattr(compose, kind))
             check(again is obj, "not-cached", "%s: second access returned a different object" % kind)
+    return resolved
+
+
+def layout_case(case):
+    tmp = tempfile.mkdtemp(prefix="c20-")
+    try:
+        root = os.path.join(tmp, "Foo-1.0-20160622.n.0")
+        locations, placed, serial = populate(root, case, 0)
+        resolved = probe(tmp, root, locations, case)
+        labels = []
+        if case.get("then"):
+            # the directory is rebuilt under the same path (a compose being re-synced, a mirror catching up): a NEW Compose object
+            # describes what is there now - what an earlier object saw is that object's business only
+            then = case["then"]
+            try:
+                locations2, placed2, serial = populate(root, then, serial)
+                probe(tmp, root, locations2, then)
+            except Violation as v:
+                raise Violation("after-directory-change/" + v.bucket, "second Compose object on the same path after the directory was rebuilt: " + v.message)
+            labels.append("reopened-after-change")
         nlocs = len(locations)
         legacy_name = any(f in ("image-manifest.json", "rpm-manifest.json") for (l, k, f) in placed)
         invalid = any(c != "valid" for c in placed.values())
-        labels = [">=2-locations"] if nlocs >= 2 else []
+        labels += [">=2-locations"] if nlocs >= 2 else []
         labels += (["legacy-name"] if legacy_name else []) + (["invalid-content"] if invalid else []) + (["trailing-slash"] if case["trailing_slash"] else [])
         labels += ["resolved:" + ("direct" if resolved == "" else "compose" if resolved == "compose" else "legacy")]
         if "compose" in locations and "info" not in locations["compose"]:
